@@ -1,8 +1,10 @@
 //! Test attribute types: values are interned terms of a free algebra, so that the exact tree of
 //! merges / splits applied by the implementation is observable; every law call ticks a
-//! thread-local fault countdown (C06).
+//! thread-local fault countdown (C06).  The term table is process-global (the schedule explorer
+//! `hcsched` of C07 runs transactions of one map on several threads).
 
-use std::cell::{Cell, RefCell};
+use std::cell::Cell;
+use std::sync::Mutex;
 
 use honeycomb_core::attributes::{AttrSparseVec, AttributeBind, AttributeError, AttributeUpdate};
 use honeycomb_core::cmap::{EdgeIdType, FaceIdType, OrbitPolicy, VertexIdType, VolumeIdType};
@@ -19,8 +21,13 @@ pub enum Node {
     Snr,
 }
 
+static TERMS: Mutex<Vec<Node>> = Mutex::new(Vec::new());
+
+fn terms() -> std::sync::MutexGuard<'static, Vec<Node>> {
+    TERMS.lock().unwrap_or_else(std::sync::PoisonError::into_inner)
+}
+
 thread_local! {
-    static TERMS: RefCell<Vec<Node>> = const { RefCell::new(Vec::new()) };
     /// 0 = disabled; k = the k-th law call from now fails
     pub static FAULT: Cell<u64> = const { Cell::new(0) };
     /// number of law calls since the last reset
@@ -28,19 +35,17 @@ thread_local! {
 }
 
 pub fn intern(n: Node) -> u32 {
-    TERMS.with(|t| {
-        let mut t = t.borrow_mut();
-        t.push(n);
-        (t.len() - 1) as u32
-    })
+    let mut t = terms();
+    t.push(n);
+    (t.len() - 1) as u32
 }
 
 pub fn clear_terms() {
-    TERMS.with(|t| t.borrow_mut().clear());
+    terms().clear();
 }
 
 pub fn term_str(id: u32) -> String {
-    let n = TERMS.with(|t| t.borrow()[id as usize].clone());
+    let n = terms()[id as usize].clone();
     match n {
         Node::Leaf(k) => format!("{k}"),
         Node::Mrg(a, b) => format!("M({},{})", term_str(a), term_str(b)),
